@@ -295,7 +295,14 @@ func (Sim) Run(raw json.RawMessage, prop string, keep bool) (res simfw.Result) {
 		case "data":
 			doc, err = loader.LoadFromData(content[0])
 		case "reader":
-			doc, err = loader.LoadFromIoReader(bytes.NewReader(content[0]))
+			if s.Stdin {
+				zzsimrt.StdinReader = bytes.NewReader(content[0])
+				doc, err = loader.LoadFromStdin()
+				zzsimrt.StdinReader = nil
+				res.Probe("root-from-stdin")
+			} else {
+				doc, err = loader.LoadFromIoReader(bytes.NewReader(content[0]))
+			}
 		case "data_path_abs", "data_path_http":
 			doc, err = loader.LoadFromDataWithPath(content[0], urlOf[0])
 		case "file_rel", "file_abs":
